@@ -372,6 +372,92 @@ fn check_case(rep: &Report, env: &Env, spec: &TreeSpec, inputs: &[String], recur
     }
 }
 
+/// The same oracle through the production binary (src/main.rs maps inputs, -r, -N, verify, clean onto the
+/// configuration): exit code and the files created / removed.
+fn cli_case(rep: &Report, env: &Env, spec: &TreeSpec, inputs: &[String], recursive: bool, mode: &Mode) {
+    let inputs_plain: Vec<String> = inputs.iter().map(|i| i.strip_prefix("ABS:").map(|r| r.to_string()).unwrap_or(i.clone())).collect();
+    let want = expected_set(spec, &inputs_plain, recursive, mode);
+    let src_tree = spec.tree();
+    let all_sources = spec.sources();
+    let mut args: Vec<String> = match mode {
+        Mode::Build => vec![],
+        Mode::InMemoryBuild => vec!["-N".into()],
+        Mode::Verify => vec!["verify".into()],
+        Mode::Clean => vec!["clean".into()],
+    };
+    args.push("-q".into());
+    if recursive {
+        args.push("-r".into());
+    }
+    for i in inputs {
+        args.push(match i.strip_prefix("ABS:") {
+            Some(r) => env.base().join(r).to_string_lossy().to_string(),
+            None => i.clone(),
+        });
+    }
+    let desc = format!("tree masks={:?}{} :: txtpp {:?}", spec.masks, if spec.dirlike { " +source-like directory names" } else if spec.includes() { " +include" } else { "" }, args);
+    let rjv = json!({"engine": "E-tree", "cli": true, "tree": spec.to_json(), "inputs": inputs, "recursive": recursive, "mode": format!("{:?}", mode), "rel_base": false});
+    let viol = |sig: &str, msg: String| rep.violate(sig, format!("{desc} :: {msg}"), rjv.clone());
+    // pre-state
+    let mut t = src_tree.clone();
+    match mode {
+        Mode::Build | Mode::InMemoryBuild => {}
+        Mode::Clean => {
+            for s in &all_sources {
+                tfile(&mut t, &output_path(s).unwrap(), spec.expected_output(s));
+            }
+        }
+        Mode::Verify => {
+            for s in &all_sources {
+                let in_set = want.as_ref().map(|set| set.contains(s)).unwrap_or(false);
+                tfile(&mut t, &output_path(s).unwrap(), if in_set { spec.expected_output(s) } else { b"tampered\n".to_vec() });
+            }
+        }
+    }
+    env.setup(&t);
+    let a: Vec<&str> = args.iter().map(|s| s.as_str()).collect();
+    let (code, to) = run_cli(&env.base(), &a, &[], 30.0);
+    rep.tv(1);
+    rep.tr(1);
+    rep.add("production_binary_cases", 1);
+    if to || (code != 0 && code != 1) {
+        viol("cli-abnormal-exit", format!("exit {code} timeout={to}"));
+        return;
+    }
+    let after = snapshot(&env.base());
+    match &want {
+        Err(e) => {
+            if code == 0 {
+                viol("missing-target-accepted", format!("exit 0 although {e}"));
+            }
+        }
+        Ok(set) => {
+            if code != 0 {
+                viol("spurious-error", "exit 1 although every named target has a source".to_string());
+                return;
+            }
+            let created: BTreeSet<String> = after.keys().filter(|k| !t.contains_key(*k) && after[*k].node != Node::Dir).cloned().collect();
+            let gone: BTreeSet<String> = t.keys().filter(|k| !after.contains_key(*k)).cloned().collect();
+            let outs: BTreeSet<String> = set.iter().map(|s| output_path(s).unwrap()).collect();
+            let (want_created, want_gone) = match mode {
+                Mode::Build | Mode::InMemoryBuild => (outs.clone(), BTreeSet::new()),
+                Mode::Clean => (BTreeSet::new(), outs.clone()),
+                Mode::Verify => (BTreeSet::new(), BTreeSet::new()),
+            };
+            if created != want_created || gone != want_gone {
+                viol("wrong-set-processed", format!("created {:?} removed {:?}; the statement prescribes created {:?} removed {:?}", created, gone, want_created, want_gone));
+            } else if matches!(mode, Mode::Build | Mode::InMemoryBuild) {
+                for s in set {
+                    let o = output_path(s).unwrap();
+                    if after.get(&o).map(|m| &m.node) != Some(&Node::File(spec.expected_output(s))) {
+                        viol("wrong-output-content", format!("{o} does not hold the output of its own source"));
+                    }
+                }
+            }
+        }
+    }
+}
+
 fn input_lists(max_len: usize) -> Vec<Vec<String>> {
     let mut v: Vec<Vec<String>> = SPELLINGS.iter().map(|s| vec![s.to_string()]).collect();
     if max_len >= 2 {
@@ -450,6 +536,39 @@ pub fn run_c11(tier: &str) -> i32 {
             }
         }
     });
+    // the production binary on three trees x single spellings and a few pairs x -r x four modes
+    {
+        let cli_specs = [
+            TreeSpec { masks: [7, 7, 7], dotted: false, include_variant: false, dirlike: false, outdir: false },
+            TreeSpec { masks: [7, 7, 7], dotted: false, include_variant: true, dirlike: false, outdir: false },
+            TreeSpec { masks: [1, 2, 4], dotted: false, include_variant: false, dirlike: true, outdir: false },
+        ];
+        let mut cl: Vec<Vec<String>> = input_lists(1);
+        for pair in [[".", "sub"], ["sub", "subx"], ["a.txt", "a.txt.txtpp"], ["sub/deep", "sub/deeper/"], ["missing.txt", "."]] {
+            cl.push(pair.iter().map(|s| s.to_string()).collect());
+        }
+        let mut jobs = vec![];
+        for (si, _) in cli_specs.iter().enumerate() {
+            for (li, _) in cl.iter().enumerate() {
+                for rec in [false, true] {
+                    for mode in [Mode::Build, Mode::InMemoryBuild, Mode::Clean, Mode::Verify] {
+                        jobs.push((si, li, rec, mode));
+                    }
+                }
+            }
+        }
+        sharded_dyn(&rep, par_threads() * 2, |_k, _n, next, rep| {
+            let env = Env { scratch: Scratch::new() };
+            loop {
+                let i = next();
+                if i >= jobs.len() {
+                    break;
+                }
+                let (si, li, rec, mode) = &jobs[i];
+                cli_case(rep, &env, &cli_specs[*si], &cl[*li], *rec, mode);
+            }
+        });
+    }
     // directories named like the output of a sibling source
     {
         let env = Env { scratch: Scratch::new() };
@@ -480,7 +599,11 @@ pub fn replay(v: &Value) -> bool {
     let spec = TreeSpec::from_json(&v["tree"]);
     let inputs: Vec<String> = v["inputs"].as_array().unwrap().iter().map(|x| x.as_str().unwrap().to_string()).collect();
     let env = Env { scratch: Scratch::new() };
-    check_case(&rep, &env, &spec, &inputs, v["recursive"].as_bool().unwrap_or(false), &crate::sched::mode_from(v["mode"].as_str().unwrap_or("Build")), v["rel_base"].as_bool().unwrap_or(false));
+    if v["cli"].as_bool() == Some(true) {
+        cli_case(&rep, &env, &spec, &inputs, v["recursive"].as_bool().unwrap_or(false), &crate::sched::mode_from(v["mode"].as_str().unwrap_or("Build")));
+    } else {
+        check_case(&rep, &env, &spec, &inputs, v["recursive"].as_bool().unwrap_or(false), &crate::sched::mode_from(v["mode"].as_str().unwrap_or("Build")), v["rel_base"].as_bool().unwrap_or(false));
+    }
     for x in rep.violations.lock().unwrap().iter() {
         println!("  [{}] {}", x.signature, x.message);
     }
